@@ -19,15 +19,6 @@ func hxSignStub(s *SMIME, message []byte) (string, error) {
 	return "SIGNATURE-BLOB-" + string(rune('0'+len(hxSigned))), nil
 }
 
-func hxContains(hay, needle []byte) bool {
-	for i := 0; i+len(needle) <= len(hay); i++ {
-		if hxEqBytes(hay[i:i+len(needle)], needle) {
-			return true
-		}
-	}
-	return false
-}
-
 func hxSetupSigning(m *Msg) bool {
 	if svIsSymbolic() {
 		// the signer is a model: any non-nil key material will do
